@@ -83,6 +83,8 @@ subobj(struct initparser *p, struct type *t, unsigned long long off)
 	off += p->sub->offset;
 	if (++p->sub == p->obj + LEN(p->obj))
 		fatal("internal error: too many designators");
+	if (t->kind == TYPEARRAY && t->incomplete)
+		error(&tok.loc, "initialization of a flexible array member is not supported");
 	p->sub->type = t;
 	p->sub->offset = off;
 	p->sub->iscur = false;
